@@ -126,7 +126,7 @@ def _gen(ctx, prop):
     return out
 
 
-L2_PROPS = {'C01': 160, 'C02': 120, 'C03': 120, 'C04': 80, 'C05': 100, 'C08': 100, 'C06': 120, 'C07': 40}
+L2_PROPS = {'C01': 160, 'C02': 120, 'C03': 120, 'C04': 80, 'C05': 100, 'C08': 100, 'C06': 120, 'C07': 100}
 
 
 def _l2_traces(ctx, prop, histories=None, scn_name='base'):
@@ -159,7 +159,7 @@ def _l2_traces(ctx, prop, histories=None, scn_name='base'):
         if prop in ('C01', 'C03', 'C04', 'C08'):
             histories += [mcm.gen_servers(mcm.SCENARIOS['base'], rng, rng.choice([5, 8, 12]))
                           for _ in range(n // 2)]
-        if prop in ('C03', 'C06'):
+        if prop in ('C03', 'C06', 'C07'):
             histories += [mcm.gen_allocs(mcm.SCENARIOS['base'], rng, rng.choice([2, 4, 6]))
                           for _ in range(n // 2)]
         if prop == 'C05':
@@ -170,9 +170,10 @@ def _l2_traces(ctx, prop, histories=None, scn_name='base'):
     ctx.l2raw = raw
     if prop == 'C03' and generated:
         dscn = mcm.SCENARIOS['dup']
-        raw = raw + mcm.record('dup', [mcm.gen_random(dscn, rng, rng.choice([8, 12])) if k % 2 else
-                                       mcm.gen_servers(dscn, rng, rng.choice([5, 8]))
-                                       for k in range(40 if ctx.quick else 400)])
+        raw = raw + mcm.record('dup', [mcm.gen_random(dscn, rng, rng.choice([8, 12])) if k % 3 == 0 else
+                                       mcm.gen_servers(dscn, rng, rng.choice([5, 8])) if k % 3 == 1 else
+                                       mcm.gen_allocs(dscn, rng, rng.choice([3, 5]))
+                                       for k in range(60 if ctx.quick else 600)])
     if prop == 'C01' and generated:
         raw = raw + mcm.record('big', [mcm.gen_resize(mcm.SCENARIOS['big'], rng)
                                        for _ in range(30 if ctx.quick else 300)])
